@@ -72,12 +72,12 @@ def round (s : PState) (i : RoundIn) : RoundOut :=
 
 /-- Invariant of the predictor state (established by `newPredictor` for sane settings, preserved by
 `update`: theorem `predictor_bounds`). -/
-def Inv (s : PState) : Prop :=
+def PInv (s : PState) : Prop :=
   0 < s.minI ∧ s.minI ≤ s.maxI ∧ s.minI ≤ s.interval ∧ s.interval ≤ s.maxI ∧
   0 ≤ s.explore ∧ s.explore ≤ Int.tdiv s.maxI 2 ∧
   (s.backoff = 0 ∨ (s.minI ≤ s.backoff ∧ s.backoff ≤ 10 * s.maxI))
 
-instance (s : PState) : Decidable (Inv s) := by unfold Inv; infer_instance
+instance (s : PState) : Decidable (PInv s) := by unfold PInv; infer_instance
 
 /-- iterate the predictor over a list of progress values, collecting the predicted waits -/
 def runPredictor : PState → List Int → List Int × PState
